@@ -234,6 +234,16 @@ pub fn block(name: &str, c: &AlphaCtx, out: &mut Vec<Op>) {
                     out.push(Op::arg(OpK::IntoIter, iter_arg(0, mode, p)));
                 }
             }
+            // the rest consumed through fold / count / last / nth instead of next
+            let mut qs = vec![0, 1, len / 2, len.saturating_sub(1), len];
+            qs.sort();
+            qs.dedup();
+            for &p in &qs {
+                for mode in MODES_PROVIDED {
+                    out.push(Op::arg(OpK::Drain, iter_arg(0, mode, p)));
+                    out.push(Op::arg(OpK::IntoIter, iter_arg(0, mode, p)));
+                }
+            }
         }
         "iterlite" => {
             out.push(Op::arg(OpK::Drain, iter_arg(0, MODE_CONSUME, 0)));
@@ -243,6 +253,10 @@ pub fn block(name: &str, c: &AlphaCtx, out: &mut Vec<Op>) {
                     out.push(Op::arg(OpK::Drain, iter_arg(0, mode, p)));
                     out.push(Op::arg(OpK::IntoIter, iter_arg(0, mode, p)));
                 }
+            }
+            for (mode, p) in [(MODE_FOLD_AT, 0), (MODE_COUNT_AT, 1), (MODE_LAST_AT, 0), (MODE_NTH_AT, len / 2)] {
+                out.push(Op::arg(OpK::Drain, iter_arg(0, mode, p)));
+                out.push(Op::arg(OpK::IntoIter, iter_arg(0, mode, p)));
             }
         }
         "pred" | "predlite" => {
@@ -270,6 +284,13 @@ pub fn block(name: &str, c: &AlphaCtx, out: &mut Vec<Op>) {
                 for &pre in &ps {
                     out.push(Op::arg(OpK::DrainFilter, iter_arg(p, MODE_DROP_AT, pre)));
                     out.push(Op::arg(OpK::DrainFilter, iter_arg(p, MODE_FORGET_AT, pre)));
+                }
+            }
+            for p in [1u64, 2] {
+                for mode in MODES_PROVIDED {
+                    for pre in [0u64, 1] {
+                        out.push(Op::arg(OpK::DrainFilter, iter_arg(p, mode, pre)));
+                    }
                 }
             }
         }
@@ -400,6 +421,16 @@ pub fn block(name: &str, c: &AlphaCtx, out: &mut Vec<Op>) {
                     for pred in [1u64, 2, 4] {
                         out.push(Op::arg(OpK::DrainFilter, iter_arg(pred, mode, p)));
                     }
+                }
+            }
+            let mut qs = vec![0, 1, len / 2, len];
+            qs.sort();
+            qs.dedup();
+            for &p in &qs {
+                for mode in MODES_PROVIDED {
+                    out.push(Op::arg(OpK::Drain, iter_arg(0, mode, p)));
+                    out.push(Op::arg(OpK::IntoIter, iter_arg(0, mode, p)));
+                    out.push(Op::arg(OpK::DrainFilter, iter_arg(1, mode, p)));
                 }
             }
         }
